@@ -38,6 +38,10 @@ CHECKS = {
    text="purity under schedules: 2-32 concurrent Select / SelectPhantom calls on one shared selector with every math/rand global call and lock as a scheduling point; each concurrent result must equal the same call executed alone before and after; all schedules of 2 tasks (bounded preemptions for 3-4 tasks) are enumerated for 12 small scenarios, larger ones sampled; containment (family, inside a configured subnet of the generation, port flag) is asserted on every result over generated configurations incl. /32, /128, leading-zero networks, overlaps, zero weights, and an offset sweep of small subnets",
    note="containment is input sampling and labelled so; the draw inside mroth/weightedrand's Chooser.Pick is not a yield point (third-party module), so a wrong group pick under interleaving is under-approximated; IPv4-mapped IPv6 networks are never configured",
    tech=TECH + " (lock-level / rand-level cooperative scheduler, schedule enumeration + seeded search, serial-result oracle)"),
+ "C16": dict(cat="exploration", ref="5 C16",
+   text="four populations: (c) byte stream - every script of <= 3 messages (thorough 4) over {0,1,2,max-1,max,heartbeat} x cyclic read sizes x error variant x pace below the real hbConn/hbClient + SCTPConn is enumerated (1.46 M cases quick); (d) flow control and heartbeat watchdog under scripted drain rates, jitter and loss; (b) routing: 2-8 (thorough 32) dial/accept pairs on one real Listener with real pion DTLS handshakes over simulated datagram links, distinct / equal / unregistered secrets, cancellations at tape-chosen points, the listener's locks as scheduling points; (a) handshake <=> same secret incl. certificate derivation across midnight and datagram faults",
+   note="trusted: pion dtls/sctp internals run uninstrumented inside the bubble (their goroutines become tasks only when they enter the listener's locks); the datagram simnet lives in the harness; 'same secret => completes' is only demanded when no datagram fault fired",
+   tech=TECH + " (script enumeration below the real stream stack, lock-level scheduling of the listener, simulated datagram network with loss / duplication / delay, simulated clock for the watchdog)"),
  "C17": dict(cat="fault_enumeration", ref="5 C17",
    text="all single faults: outcome class (no registration, no transport, found via min/prefix/obfs4, transport error) x client family (IPv4, IPv6, v4-mapped) x 17 operation sites on the client connection, the dial and the covert connection x every error shape of that operation; pairs of faults and registration-path events sampled; everything the process writes to stdout/stderr/std logger is captured and searched for every textual form of the client address",
    note="trusted: simnet's error shapes mirror the net package's (OpError text with both endpoints); the capture redirects os.Stdout/os.Stderr before any logger is created; statistics printers are exercised under C19, not here",
